@@ -835,15 +835,24 @@ impl<'a> Visitor<'a> {
             return None;
         }
 
+        // the extension is appended to the whole name: `foo.bar` is looked up as
+        // `foo.bar.scss`, not as `foo.scss`
+        fn with_suffix(path: &Path, suffix: &str) -> PathBuf {
+            let mut name = path.as_os_str().to_owned();
+            name.push(".");
+            name.push(suffix);
+            PathBuf::from(name)
+        }
+
         macro_rules! try_path_with_extensions {
             ($path:expr) => {
                 let path = $path;
-                try_path!(path.with_extension("import.sass"));
-                try_path!(path.with_extension("import.scss"));
-                try_path!(path.with_extension("import.css"));
-                try_path!(path.with_extension("sass"));
-                try_path!(path.with_extension("scss"));
-                try_path!(path.with_extension("css"));
+                try_path!(with_suffix(&path, "import.sass"));
+                try_path!(with_suffix(&path, "import.scss"));
+                try_path!(with_suffix(&path, "import.css"));
+                try_path!(with_suffix(&path, "sass"));
+                try_path!(with_suffix(&path, "scss"));
+                try_path!(with_suffix(&path, "css"));
             };
         }
 
